@@ -101,6 +101,15 @@ func upLayouts(tier string, second bool) []upLayout {
 			}
 		}
 	}
+	// files beyond the in-memory budget of the multipart parser (32 MiB per request): parts are
+	// then spooled to disk by net/http and read back when the sub-request is built
+	big := func(n int, tag string) string {
+		unit := tag + "0123456789abcdef"
+		return strings.Repeat(unit, n/len(unit)+1)[:n]
+	}
+	out = append(out, upLayout{Ops: []upOp{ops[0]}, Files: []upFile{{Name: "big.bin", Content: big(33<<20, "A"), Paths: []string{ops[0].Slots[0]}}}, Desc: "op0 1 file of 33 MiB"})
+	out = append(out, upLayout{Ops: []upOp{ops[2]}, Files: []upFile{{Name: "most.bin", Content: big(31<<20, "B"), Paths: []string{ops[2].Slots[0]}}, {Name: "rest.bin", Content: big(2<<20, "C"), Paths: []string{ops[2].Slots[1]}}},
+		Desc: "op2 files of 31 MiB and 2 MiB"})
 	// batches of two
 	for i, a := range ops {
 		for j, b := range ops {
@@ -169,7 +178,7 @@ func init() {
 		ID:    "C19",
 		Level: "exploration",
 		Rule: "case = multipart layout: operation count {1, batch of 2} x operation shape (file variable at top level / inside an input object / inside a list / list inside an object; one or two consuming fields; consumers on one or two services; " +
-			"non-file sibling on the other service; child lookups) x file map (1 file at 1 slot, 1 file at 2 slots, 2 files) x contents (empty, 1 byte, CRLF + boundary look-alike + NUL/0xFF bytes; thorough: 70 kB); " +
+			"non-file sibling on the other service; child lookups) x file map (1 file at 1 slot, 1 file at 2 slots, 2 files) x contents (empty, 1 byte, CRLF + boundary look-alike + NUL/0xFF bytes; thorough: 70 kB) plus two layouts beyond the 32 MiB in-memory budget of the multipart parser (one file of 33 MiB; 31 MiB + 2 MiB); " +
 			"oracle: every service sub-request that declares the variable is multipart and maps the same variable path to the same file name and bytes, sub-requests that do not use the variable carry no file, and data equals the reference; non-trivial = a file reached a service",
 		Assumptions: []string{"the in-memory service decodes multipart with mime/multipart (independent of the gateway's encoder only in direction)", "file stand-in in the reference is the string file:<name>:<bytes>"},
 		Jobs:        c19Jobs,
@@ -246,6 +255,10 @@ func init() {
 				}
 				body, ct := l.body()
 				rp := map[string]interface{}{"world": wd.Name(), "cfg": cfg.String(), "layout": l.Desc, "content_type": ct, "body": body}
+				if len(body) > 1<<20 {
+					rp["body"] = fmt.Sprintf("<%d bytes, see layout>", len(body))
+					rp["content_type"] = "multipart/form-data"
+				}
 				if !em.Begin(i, atoms, rp) {
 					if em.Capped() {
 						return
